@@ -1,0 +1,9 @@
+//go:build !verif
+
+package minter
+
+// Simulation seams; without the verif build tag they are inert.
+
+func verifStop(blockchain *Blockchain) bool { return false }
+
+func verifMinGasPrice(blockchain *Blockchain) (uint32, bool) { return 0, false }
